@@ -45,6 +45,7 @@ func runC05(r *an.Run) {
 	relabel(r, "R4-recorded-run-is-skipped-run", "R6-elided-elements-reproduced-whole")
 	relabel(r, "R5-search-completeness", "R6-elided-elements-reproduced-whole")
 	relabel(r, "R6-reproduction", "R6-elided-elements-reproduced-whole")
+	listBuiltIsNewMemory(r, "R6-elided-elements-reproduced-whole")
 	// the package clause: FileReplacer writes the patch's package name into every matched file, so a
 	// context-line package clause leaves the file's clause unchanged only if the matcher's guard is exact equality
 	c10PackageGuard(r)
